@@ -36,7 +36,10 @@ Configs == {
     [id |-> "G", f2col |-> "k2", indexes |-> <<Idx("s1", "schema", <<"f1">>), Idx("s2", "schema", <<"f2">>)>>],
     \* a two-column client index over a plain column and a map key: with F1Vals containing "" and a value of
     \* F2Vals, rows (f1 = v, key absent) and (f1 = "", key = v) must stay apart
-    [id |-> "H", f2col |-> "m",  indexes |-> <<Idx("c12", "client", <<"f1", "f2">>)>>]
+    [id |-> "H", f2col |-> "m",  indexes |-> <<Idx("c12", "client", <<"f1", "f2">>)>>],
+    \* two client indexes and no unique one: rows share values in either, a selection by both columns intersects
+    \* the two entries (look-ups must leave the indexes as they are)
+    [id |-> "I", f2col |-> "o",  indexes |-> <<Idx("c1", "client", <<"f1">>), Idx("c2", "client", <<"f2">>)>>]
 }
 
 \* f2 may be "nil" only where the real column can be unset
